@@ -29,7 +29,7 @@ RULE = ("full product key-file placement x method x plaintext x format x operati
 ASSUMPTIONS = ["mc/ref/aes.py and a hand-written XOR are the reference ciphers", "empty secrets are out of scope (they come back unset)",
                "file accesses are observed through CPython's 'open' audit event"]
 
-PLAINTEXTS = {"ascii7": "s3cr3t!", "nonascii": "päss-wörd-ÜÑ", "long40": "0123456789abcdefghijABCDEFGHIJ!@#$%^&*()",
+PLAINTEXTS = {"ascii7": "s3cr3t!", "nonascii": "päss-wörd-ÜÑ", "long40": "0123456789abcdefghijABCDEFGHIJ!@#$%^&*()_+-=[]{}",       # 48 bytes: longer than the key, and a whole number of cipher blocks
               "padded": "  päss wörd with edges\t\n"}        # white space at either end is part of the secret
 NODES = ["root", "sub", "deep", "ct"]
 KEYS = {name: bytes((i * 31 + j * 7 + 11) % 256 for j in range(32)) for i, name in enumerate(["default", "root", "sub", "deep", "ct", "root2", "sub2"])}
